@@ -61,7 +61,7 @@ def dfa_alphabet(dfa):
     return sorted(min(p) for p in parts)
 
 
-def dfa_walk(m, dfa, rng, maxlen=40, p_good=0.85):
+def dfa_walk(m, dfa, rng, maxlen=40, p_good=0.93):
     """random walk over the compiled machine choosing mostly non-error symbols: long plausible inputs (workload only)"""
     out = bytearray()
     st = dfa.starting_state
